@@ -43,6 +43,9 @@ class FakeTransport(asyncio.Transport):
         self.lost_called = False
         self.fatal = None
         self.closed_by_controller_at = None
+        self.stalled = False       # the peer does not read and the kernel buffers are full: what is written stays in the write buffer
+        self._buffer = bytearray()
+        self._buffer_calls = []
 
     # ---- controller-facing API
     def get_extra_info(self, name, default=None):
@@ -85,24 +88,48 @@ class FakeTransport(asyncio.Transport):
         if self._conn_lost:
             self._conn_lost += 1
             return
+        if self.stalled or self._buffer:
+            self._buffer += data
+            self._buffer_calls.append((len(self.write_calls) - 1, data))
+            return
         if self.peer is not None:
             self.peer.controller_wrote(data, len(self.write_calls) - 1)
+
+    def get_write_buffer_size(self):
+        return len(self._buffer)
+
+    def drain(self):
+        """The peer reads again: the write buffer is flushed; a close() that was waiting for it completes (asyncio: _write_ready)."""
+        self.stalled = False
+        if self._conn_lost:
+            return
+        calls, self._buffer_calls, self._buffer = self._buffer_calls, [], bytearray()
+        for idx, data in calls:
+            if self.peer is not None:
+                self.peer.controller_wrote(data, idx)
+        if self._closing:
+            self._conn_lost += 1
+            self._loop.call_soon(self._call_connection_lost, None)
+        elif self._eof and self.peer is not None:
+            self.peer.controller_half_closed()
 
     def write_eof(self):
         if self._closing or self._eof:
             return
         self._eof = True
-        if self.peer is not None:
+        if self.peer is not None and not self._buffer:
             self.peer.controller_half_closed()
 
     def close(self):
         if self._closing:
             return
         self._closing = True
-        self._conn_lost += 1
         self.closed_by_controller_at = self._loop.time()
         if self.peer is not None:
             self.peer.controller_closing()
+        if self._buffer:
+            return          # asyncio: connection_lost is called once the buffer has been flushed (or the socket fails)
+        self._conn_lost += 1
         self._loop.call_soon(self._call_connection_lost, None)
 
     def abort(self):
@@ -112,6 +139,8 @@ class FakeTransport(asyncio.Transport):
     def _force_close(self, exc):
         if self._conn_lost:
             return
+        self._buffer.clear()
+        self._buffer_calls.clear()
         self._closing = True
         self._conn_lost += 1
         self._loop.call_soon(self._call_connection_lost, exc)
@@ -151,6 +180,10 @@ class FakeTransport(asyncio.Transport):
             self.close()
 
     def feed_reset(self):
+        if self._closing and self._buffer:
+            # the reader is gone already; the reset is discovered by the pending write
+            self._force_close(BrokenPipeError(32, "Broken pipe"))
+            return
         self._force_close(ConnectionResetError(104, "Connection reset by peer"))
 
 
@@ -618,7 +651,7 @@ class Net:
 
 # ---------------------------------------------------------------- differential self-test of FakeTransport against asyncio's socket transport
 def selftest():
-    """Runs five scenarios over a real TCP loopback connection and over FakeTransport and compares the callback sequences."""
+    """Runs eight scenarios over a real TCP loopback connection and over FakeTransport and compares the callback sequences."""
     import socket
 
     class RecProto(asyncio.Protocol):
@@ -641,7 +674,8 @@ def selftest():
         def connection_lost(self, exc):
             self.log.append("lost:" + (type(exc).__name__ if exc else "None"))
 
-    SCEN = ["peer-data-then-fin", "protocol-raises", "local-close-then-write", "peer-reset", "eof-keep-open"]
+    SCEN = ["peer-data-then-fin", "protocol-raises", "local-close-then-write", "peer-reset", "eof-keep-open", "stalled-fin-then-reset", "stalled-close-then-drain",
+            "stalled-fin-then-drain"]
 
     async def real(scen):
         loop = asyncio.get_running_loop()
@@ -654,12 +688,44 @@ def selftest():
             cli.connect(srv.getsockname())
         except BlockingIOError:
             pass
+        if scen.startswith("stalled"):
+            srv.setsockopt(socket.SOL_SOCKET, socket.SO_RCVBUF, 4096)
+            cli.setsockopt(socket.SOL_SOCKET, socket.SO_SNDBUF, 4096)
         peer, _ = srv.accept()
         srv.close()
         log = []
         proto = RecProto(log, raise_on=b"bad" if scen == "protocol-raises" else None, keep_open=scen == "eof-keep-open")
         t, _ = await loop.create_connection(lambda: proto, sock=cli)
         await asyncio.sleep(0.02)
+        if scen.startswith("stalled"):
+            # the peer does not read: most of this stays in the transport's write buffer
+            t.write(b"x" * (8 * 1024 * 1024))
+            await asyncio.sleep(0.05)
+            log.append("buffered:" + str(t.get_write_buffer_size() > 0))
+            if scen == "stalled-close-then-drain":
+                t.close()
+            else:
+                peer.shutdown(socket.SHUT_WR)
+            await asyncio.sleep(0.2)
+            log.append("closing:" + str(t.is_closing()))
+            if scen == "stalled-fin-then-reset":
+                peer.setsockopt(socket.SOL_SOCKET, socket.SO_LINGER, struct.pack("ii", 1, 0))
+                peer.close()
+            else:
+                peer.setblocking(False)
+                got = 0
+                for _ in range(4000):
+                    try:
+                        d = peer.recv(1 << 20)
+                        if not d:
+                            break
+                        got += len(d)
+                    except BlockingIOError:
+                        await asyncio.sleep(0.001)
+                    if got >= 8 * 1024 * 1024:
+                        break
+                log.append("peer-read-all:" + str(got == 8 * 1024 * 1024))
+            await asyncio.sleep(0.2)
         if scen == "peer-data-then-fin":
             peer.sendall(b"hello")
             await asyncio.sleep(0.02)
@@ -683,7 +749,10 @@ def selftest():
             peer.close()
         except OSError:
             pass
-        t.abort()
+        try:
+            t.abort()
+        except AttributeError:
+            pass            # already torn down
         return log
 
     async def fake(scen):
@@ -693,6 +762,24 @@ def selftest():
         t = FakeTransport(loop, FakeSocket(None, "127.0.0.1", 1), proto)
         loop.call_soon(proto.connection_made, t)
         await asyncio.sleep(0.02)
+        if scen.startswith("stalled"):
+            t.stalled = True
+            t.write(b"x" * (8 * 1024 * 1024))
+            await asyncio.sleep(0.05)
+            log.append("buffered:" + str(t.get_write_buffer_size() > 0))
+            if scen == "stalled-close-then-drain":
+                t.close()
+            else:
+                t.feed_eof()
+            await asyncio.sleep(0.2)
+            log.append("closing:" + str(t.is_closing()))
+            if scen == "stalled-fin-then-reset":
+                t.feed_reset()
+            else:
+                t.drain()
+                await asyncio.sleep(0.01)
+                log.append("peer-read-all:True")
+            await asyncio.sleep(0.2)
         if scen == "peer-data-then-fin":
             t.feed(b"hello")
             await asyncio.sleep(0.02)
